@@ -17,9 +17,13 @@ RULE = ("kernel states drawn from a grammar: 0-30 sockets over /proc/net/{tcp,tc
         "UTF-8 / undecodable bytes / leading, trailing, repeated blanks and tabs), 1-4 processes (visible or EACCES fd directory) holding each socket through "
         "0-3 descriptors shared between processes (TCP/UDP and UNIX), closed and non-socket descriptors, absent IPv6 files, little- and big-endian "
         "decoding; every state is queried system-wide with all 11 kinds + junk kinds and per process; plus address-only cases "
-        "(every byte value at every address position in the exhaustive part) and a malformed stream (mutated lines, odd links). "
+        "(every byte value at every address position in the exhaustive part), hosts without IPv6 (inet_ntop failing, supports_ipv6() "
+        "True/False), a malformed stream (mutated lines, odd links) and targeted malformed inputs (TCP/UDP line of 0-9 / exactly 10 fields, "
+        "UNIX junk line without blank, short UNIX line with a blank, exactly 7 fields, process without sockets over tables that would raise). "
+        "Per call three observations are compared: returned list (duplicates kept), add() sequence (multiset), /proc/net access log. "
         "A case is non-trivial when it has at least one socket; distinct = distinct canonical case hash.")
-TRUSTED = ["correspondence harness props/C11.py + pv/ (fake /proc tree, os.listdir / os.readlink patches)",
+TRUSTED = ["correspondence harness props/C11.py + pv/ (fake /proc tree, os.listdir / os.readlink patches; recording set installed as "
+           "psutil._pslinux.set, open_text wrapper for the access log, socket.inet_ntop / supports_ipv6 patches for the host oracle)",
            "kernel formats of /proc/net/{tcp,tcp6,udp,udp6,unix} and /proc/<pid>/fd transcribed in coq/C11/Spec.v",
            "table translator props/_c11_tables.py (dumps TCP_STATUSES, tmap, conn_tmap, socket constants into coq/Gen/C11_Tables.v)",
            "glibc inet_ntop/inet_pton: an address is compared as its packed bytes (socket.inet_pton of the text psutil returns)"]
@@ -182,9 +186,17 @@ def _mk_state_case(rng, st, le=True, all_kinds=True):
     rng.shuffle(idxs)
     for i in idxs[:2]:
         sel.append([i, rng.sample(KINDS, 3) + ["all"] + rng.sample(JUNK, 1)])
-    c = {"kind": "state", "le": le, "kinds": kinds, "sel": sel}
+    c = {"kind": "state", "le": le, "o": [True, True], "kinds": kinds, "sel": sel}
     c.update(st)
     c["cls"] = _cls(st, le)
+    return c
+
+
+def _with_oracle(c, ntop6, supported):
+    """Same state on a host whose inet_ntop cannot format IPv6 (ntop6 False) / whose supports_ipv6() answers [supported]."""
+    c["o"] = [ntop6, supported]
+    if not ntop6:
+        c["cls"] = "state-no-ipv6" if not supported else "state-ipv6-valueerror"
     return c
 
 
@@ -276,18 +288,87 @@ def _raw_case(rng):
         procs.append({"pid": pid, "listing": rng.choice(["ok"] * 6 + ["denied", "gone"]), "ents": ents})
     kinds = rng.sample(KINDS, 3) + ["all"] + rng.sample(JUNK, 1)
     sel = [[i, rng.sample(KINDS, 2) + ["all"]] for i in range(len(procs)) if procs[i]["listing"] != "gone"][:2]
-    return {"kind": "raw", "cls": "raw", "le": rng.random() < 0.9, "files": files, "procs": procs, "kinds": kinds, "sel": sel}
+    o = [True, True] if rng.random() < 0.85 else [False, rng.random() < 0.5]
+    return {"kind": "raw", "cls": "raw", "le": rng.random() < 0.9, "o": o, "files": files, "procs": procs, "kinds": kinds,
+            "sel": sel}
+
+
+GOOD_INET = RAW_LINES_INET[0]
+GOOD_UNIX = b"0000000000000000: 00000002 00000000 00010000 0001 01   600 /tmp/a b\n"
+
+
+def _malformed_case(rng, which):
+    """Targeted inputs for the malformed-line branches and the 'no sockets' early return; 'expect' is what the
+    line-level theorems say must happen (checked on the implementation independently of the model's answer)."""
+    hdr = b"header line\n"
+    files = {n: hdr.hex() for n in ("tcp", "tcp6", "udp", "udp6", "unix")}
+    procs = [{"pid": 10, "listing": "ok", "ents": [["3", ["target", b"socket:[500]".hex()]], ["5", ["target", b"socket:[600]".hex()]]]},
+             {"pid": 20, "listing": "ok", "ents": [["0", ["target", b"/dev/null".hex()]], ["1", ["target", b"pipe:[77]".hex()]]]}]
+    expect = {}
+    if which == "inet-short":
+        n = rng.randint(0, 9)                      # fewer than 10 fields -> RuntimeError
+        short = b" ".join(GOOD_INET.split()[:n]) + b"\n"
+        pos = rng.choice(["first", "last"])
+        body = (short + GOOD_INET) if pos == "first" else (GOOD_INET + short)
+        name = rng.choice(["tcp", "udp"])
+        files[name] = (hdr + body).hex()
+        kinds = [name + "4", "unix", "inet"]
+        expect = {"sys": {name + "4": "RuntimeError", "unix": 0, "inet": "RuntimeError"}}
+    elif which == "inet-ten":
+        ten = b" ".join(GOOD_INET.split()[:10]) + b"\n"   # exactly 10 fields: a row
+        files["tcp"] = (hdr + ten).hex()
+        kinds = ["tcp4", "tcp"]
+        expect = {"sys": {"tcp4": 1, "tcp": 1}}
+    elif which == "unix-766":
+        junk = rng.choice([b"000000000000000000000000000000000000000000000000000000\n", b"\n", b"tail-of-a-name\n",
+                           b"a\tb\tc\n", b"x\ty\tz\tu\tv\tw\n"])            # no blank, fewer than 7 fields -> skipped
+        body = rng.choice([junk + GOOD_UNIX, GOOD_UNIX + junk, GOOD_UNIX + junk + junk])
+        files["unix"] = (hdr + body).hex()
+        kinds = ["unix", "all"]
+        expect = {"sys": {"unix": 1, "all": 1}}
+    elif which == "unix-short-blank":
+        n = rng.randint(2, 6)                      # fewer than 7 fields, with a blank -> RuntimeError
+        short = b" ".join(GOOD_UNIX.split()[:n]) + b"\n"
+        files["unix"] = (hdr + rng.choice([short + GOOD_UNIX, GOOD_UNIX + short])).hex()
+        kinds = ["unix", "all", "inet"]
+        expect = {"sys": {"unix": "RuntimeError", "all": "RuntimeError", "inet": 0}}
+    elif which == "unix-seven":
+        seven = b" ".join(GOOD_UNIX.split()[:7]) + b"\n"  # exactly 7 fields: an unbound socket
+        files["unix"] = (hdr + seven).hex()
+        kinds = ["unix"]
+        expect = {"sys": {"unix": 1}}
+    elif which == "proc-nosock":
+        # every table would raise if it were read; the process holds no socket -> [] and nothing opened
+        for n in ("tcp", "tcp6", "udp", "udp6"):
+            files[n] = (hdr + b"garbage line\n").hex()
+        files["unix"] = (hdr + b"a b\n").hex()
+        kinds = ["bogus"]
+        expect = {"sys": {"bogus": "ValueError"}, "proc_empty": 1}
+    else:
+        raise ValueError(which)
+    sel = [[1, list(KINDS)]] if which == "proc-nosock" else [[0, kinds[:1]]]
+    return {"kind": "raw", "cls": "malformed-" + which, "le": True, "o": [True, True], "files": files, "procs": procs,
+            "kinds": kinds, "sel": sel, "expect": expect}
+
+MALFORMED = ["inet-short", "inet-ten", "unix-766", "unix-short-blank", "unix-seven", "proc-nosock"]
 
 
 def gen_cases(rng, tier):
-    n_state = {"quick": 200, "thorough": 2500, "search": 400}[tier]
-    n_raw = {"quick": 100, "thorough": 1200, "search": 150}[tier]
+    n_state = {"quick": 160, "thorough": 2500, "search": 400}[tier]
+    n_raw = {"quick": 80, "thorough": 1200, "search": 150}[tier]
     n_addr = {"quick": 150, "thorough": 2000, "search": 150}[tier]
     cases = []
     # ---- enumerated parts
     cases.append(_mk_state_case(rng, _all_classes_state()))
     cases[-1]["cls"] = "enum-kind-x-class"
-    cases[-1]["sel"] = [[0, list(KINDS)], [1, ["all", "unix", "inet"]]]
+    cases[-1]["sel"] = [[0, list(KINDS)], [1, list(KINDS)]]
+    for o in ([False, False], [False, True]):
+        c = _mk_state_case(rng, _all_classes_state())
+        c["sel"] = [[0, list(KINDS)]]
+        cases.append(_with_oracle(c, *o))
+    for which in MALFORMED:
+        for _ in range({"quick": 6, "thorough": 60, "search": 6}[tier]):
+            cases.append(_malformed_case(rng, which))
     for v6 in (False, True):
         cases.append(_mk_state_case(rng, _tcp_states_state(v6), le=True))
         cases[-1]["cls"] = "enum-tcp-states"
@@ -303,10 +384,10 @@ def gen_cases(rng, tier):
             for b in range(256):
                 ip = list((V6 if v6 else V4)[4])
                 ip[pos] = b
-                cases.append({"kind": "addr", "cls": "addr-enum", "le": le, "ip": ip, "port": 4660})
+                cases.append({"kind": "addr", "cls": "addr-enum", "le": le, "o": [True, True], "ip": ip, "port": 4660})
     ports = [0, 1, 255, 256, 4095, 4096, 65535] + (list(range(0, 65536, 257)) if tier == "thorough" else [])
     for p in ports:
-        cases.append({"kind": "addr", "cls": "addr-port", "le": True, "ip": [10, 0, 0, 5], "port": p})
+        cases.append({"kind": "addr", "cls": "addr-port", "le": True, "o": [True, True], "ip": [10, 0, 0, 5], "port": p})
     # ---- random states
     for i in range(n_state):
         r = rng.random()
@@ -314,18 +395,26 @@ def gen_cases(rng, tier):
         big = rng.random() < 0.04
         size = [5, 8, 6] if big else [0, 0, 1, 1, 2, 3]
         st = _state(rng, size, flavour)
-        cases.append(_mk_state_case(rng, st, le=rng.random() < 0.85, all_kinds=not big))
+        c = _mk_state_case(rng, st, le=rng.random() < 0.85, all_kinds=not big)
+        r = rng.random()
+        if r < 0.10:
+            _with_oracle(c, False, False)
+        elif r < 0.14:
+            _with_oracle(c, False, True)
+        cases.append(c)
     # ---- random addresses
     for _ in range(n_addr):
         v6 = rng.random() < 0.5
-        cases.append({"kind": "addr", "cls": "addr", "le": rng.random() < 0.8, "ip": _ip(rng, v6),
+        o = [True, True] if rng.random() < 0.7 else [False, rng.random() < 0.5]
+        cases.append({"kind": "addr", "cls": "addr" if o[0] else "addr-no-ipv6", "le": rng.random() < 0.8, "o": o, "ip": _ip(rng, v6),
                       "port": rng.choice(PORTS) if rng.random() < 0.5 else rng.randrange(65536)})
     for a in [b"0100007F:0016", b"0100007f:0016", b"0100007F", b"0100007F:", b":0016", b"0100007F:0016:", b"01007F:0016",
               b"0100007F:0x16", b"0100007F:-1", b"0100007F:1_0", b"0100007F: 16", b"0100007F0:0016", b"0100007G:0016",
               b"0100007G:0000", b"0100007F:G", b"0000000000000000FFFF00000100007F:9E49", b"00000000000000FFFF00000100007F:9E49",
               b":1", b"::1", b"00:1"]:
         for fam in (AF_INET, AF_INET6):
-            cases.append({"kind": "addr_raw", "cls": "addr-raw", "le": True, "text": a.hex(), "family": fam})
+            for o in ([True, True], [False, False]):
+                cases.append({"kind": "addr_raw", "cls": "addr-raw", "le": True, "o": o, "text": a.hex(), "family": fam})
     # ---- malformed stream
     for _ in range(n_raw):
         cases.append(_raw_case(rng))
@@ -409,6 +498,11 @@ def _link_term(lk):
     return {"enoent": "LENOENT", "einval": "LEINVAL", "eacces": "LEACCES"}[lk[0]]
 
 
+def _oracle_term(case):
+    o = case.get("o", [True, True])
+    return "(Build_ipv6_oracle %s %s)" % (G.bo(o[0]), G.bo(o[1]))
+
+
 def coq_term(case):
     k = case["kind"]
     if k == "state":
@@ -418,9 +512,9 @@ def coq_term(case):
                 return "None"
             t = G.lst([_isock_term(s, i, wide) for i, s in enumerate(v)])
             return "(Some %s)" % t if name.endswith("6") else t
-        return "run_state %s %s (Build_kstate %s %s %s %s %s %s) %s %s" % (
-            VARIANT, G.bo(case["le"]), tbl("tcp4", False), tbl("tcp6", False), tbl("udp4", True), tbl("udp6", True),
-            G.lst([_usock_term(u) for u in case["unix"]]), G.lst([_kproc_term(p) for p in case["procs"]]),
+        return "run_state %s %s %s (Build_kstate %s %s %s %s %s %s) %s %s" % (
+            VARIANT, G.bo(case["le"]), _oracle_term(case), tbl("tcp4", False), tbl("tcp6", False), tbl("udp4", True),
+            tbl("udp6", True), G.lst([_usock_term(u) for u in case["unix"]]), G.lst([_kproc_term(p) for p in case["procs"]]),
             _kinds_term(case["kinds"]), _sel_term(case["sel"]))
     if k == "raw":
         fs = G.lst(["(%s, %s)" % (G.by(n), G.by(bytes.fromhex(h))) for n, h in sorted(case["files"].items())])
@@ -431,38 +525,43 @@ def coq_term(case):
             else:
                 ls = {"denied": "LsDenied", "gone": "LsGone"}[p["listing"]]
             procs.append("(%s, %s)" % (G.z(p["pid"]), ls))
-        return "run_raw %s %s %s %s %s %s" % (VARIANT, G.bo(case["le"]), fs, G.lst(procs), _kinds_term(case["kinds"]), _sel_term(case["sel"]))
+        return "run_raw %s %s %s %s %s %s %s" % (VARIANT, G.bo(case["le"]), _oracle_term(case), fs, G.lst(procs),
+                                              _kinds_term(case["kinds"]), _sel_term(case["sel"]))
     if k == "addr":
-        return "run_addr %s %s %s" % (G.bo(case["le"]), _ipterm(case["ip"]), G.z(case["port"]))
+        return "run_addr %s %s %s %s" % (G.bo(case["le"]), _oracle_term(case), _ipterm(case["ip"]), G.z(case["port"]))
     if k == "addr_raw":
-        return "run_addr_raw %s %s %s" % (G.bo(case["le"]), G.by(bytes.fromhex(case["text"])), G.z(case["family"]))
+        return "run_addr_raw %s %s %s %s" % (G.bo(case["le"]), _oracle_term(case), G.by(bytes.fromhex(case["text"])),
+                                             G.z(case["family"]))
     raise ValueError(k)
 
 
 def _canon_rows(o, drop_pid=False):
-    """Val [rows] -> Val [sorted distinct rows] (the observation point is the SET of returned tuples)."""
+    """Val [rows] -> Val [sorted rows], duplicates KEPT (a multiset): a row counted twice must not hide."""
     if isinstance(o, dict) and o.get("t") == "Val":
         rows = o["a"][0]
         if drop_pid:
             rows = [r[:6] for r in rows]
-        uniq = {json.dumps(r, sort_keys=True): r for r in rows}
-        return Val([uniq[k] for k in sorted(uniq)])
+        return Val(sorted(rows, key=lambda r: json.dumps(r, sort_keys=True)))
     return o
+
+
+def _comp(x, drop_pid):
+    """[returned rows, add() sequence, access log] of one call, canonical."""
+    return [_canon_rows(x[0], drop_pid), _canon_rows(x[1], drop_pid), x[2]]
 
 
 def coq_struct(case, raw):
     k = case["kind"]
     if k == "state":
-        sysm = [_canon_rows(x[0]) for x in raw[2]]
-        syse = [x[1] for x in raw[2]]
-        procm = [[_canon_rows(x[0], drop_pid=True) for x in per] for per in raw[3]]
-        proce = [[x[1] for x in per] for per in raw[3]]
+        sysm = [_comp(x, False) for x in raw[2]]
+        procm = [[_comp(x, True) for x in per] for per in raw[3]]
+        syse = [[x[3], x[4]] for x in raw[2]]
+        proce = [[[x[3], x[4]] for x in per] for per in raw[3]]
         return {"printed": raw[0], "wf": raw[1], "model": [sysm, procm], "entries": [syse, proce], "spec": None}
     if k == "raw":
-        return {"model": [[_canon_rows(x) for x in raw[0]], [[_canon_rows(x, drop_pid=True) for x in per] for per in raw[1]]],
-                "spec": None}
+        return {"model": [[_comp(x, False) for x in raw[0]], [[_comp(x, True) for x in per] for per in raw[1]]], "spec": None}
     if k == "addr":
-        return {"printed": raw[0], "model": raw[1], "spec": None if raw[2] is None else Val(raw[2])}
+        return {"printed": raw[0], "model": raw[1], "spec": raw[2]}
     if k == "addr_raw":
         return {"model": raw[0], "spec": None}
     raise ValueError(k)
@@ -472,34 +571,56 @@ def coq_struct(case, raw):
 OOM = {"t": "OutOfModel", "a": []}
 
 
-def _has_oom(x):
-    if x == OOM:
-        return True
-    if isinstance(x, list):
-        return any(_has_oom(y) for y in x)
-    return False
+def _row_matches(r, e, per_process):
+    return r[1:6] == e[0:5] and any((per_process or o[0] == r[6]) and o[1] == r[0] for o in e[5])
 
 
-def _entries_ok(impl, entries, per_process):
-    """The demanded answer as a relation: every returned row is a demanded socket with an admissible owner,
-    and every demanded socket is returned."""
-    if not (isinstance(impl, dict) and impl.get("t") == "Val"):
-        return "the call failed: %r" % (impl,)
-    rows = impl["a"][0]
-    matched = [False] * len(entries)
-    for r in rows:
+def _perfect_matching(rows, entries, per_process):
+    """Is there a bijection rows <-> entries with every row matching its entry (Kuhn's augmenting paths)?"""
+    adj = [[j for j, e in enumerate(entries) if _row_matches(r, e, per_process)] for r in rows]
+    match = [-1] * len(entries)
+
+    def try_row(i, seen):
+        for j in adj[i]:
+            if j in seen:
+                continue
+            seen.add(j)
+            if match[j] < 0 or try_row(match[j], seen):
+                match[j] = i
+                return True
+        return False
+    for i in range(len(rows)):
+        if not adj[i]:
+            return "add()ed row is not a demanded socket of this kind / owner: %r" % (rows[i],)
+        if not try_row(i, set()):
+            return "row add()ed more often than demanded (double count): %r" % (rows[i],)
+    if -1 in match:
+        return "socket missing from the answer: %r" % (entries[match.index(-1)],)
+    return None
+
+
+def _call_ok(comp, entries, slog, per_process, check_log=True):
+    """The demanded answer as a relation on the MULTISET of add()ed rows: a bijection between add() calls and demanded
+    entries (right fields, admissible owner; none missing, none twice); the returned list = the distinct add()ed rows,
+    without duplicate; the tables read = the demanded access log."""
+    final, adds, log = comp
+    if not (isinstance(final, dict) and final.get("t") == "Val"):
+        return "the call failed: %r" % (final,)
+    rows = adds["a"][0]
+    for r in rows + final["a"][0]:
         if isinstance(r, dict):
             return "bad tuple %r" % (r,)
-        own = [None if per_process else r[6], r[0]]
-        hit = False
-        for j, e in enumerate(entries):
-            if r[1:6] == e[0:5] and any((per_process or o[0] == own[0]) and o[1] == own[1] for o in e[5]):
-                matched[j] = True
-                hit = True
-        if not hit:
-            return "returned row is not a socket of this kind / owner: %r" % (r,)
-    if not all(matched):
-        return "socket missing from the answer: %r" % (entries[matched.index(False)],)
+    msg = _perfect_matching(rows, entries, per_process)
+    if msg:
+        return msg
+    ret = final["a"][0]
+    keys = [json.dumps(r, sort_keys=True) for r in ret]
+    if len(set(keys)) != len(keys):
+        return "duplicate row in the returned list: %r" % (ret,)
+    if set(keys) != {json.dumps(r, sort_keys=True) for r in rows}:
+        return "returned list is not the set of add()ed rows"
+    if check_log and log != slog:
+        return "tables read %r, demanded %r" % (log, slog)
     return None
 
 
@@ -514,6 +635,28 @@ def finding_key(case, coq):
     return None
 
 
+def _expect_problems(case, impl):
+    """Targeted malformed cases: what the line-level theorems say must happen."""
+    ex = case.get("expect") or {}
+    out = []
+    for kind, got in zip(case["kinds"], impl[0]):
+        want = ex.get("sys", {}).get(kind)
+        if want is None:
+            continue
+        if isinstance(want, str):
+            if got[0] != Exc(want):
+                out.append("net_connections(%r): expected %s, got %r" % (kind, want, got[0]))
+        elif not (isinstance(got[0], dict) and got[0].get("t") == "Val" and len(got[0]["a"][0]) == want):
+            out.append("net_connections(%r): expected %d row(s), got %r" % (kind, want, got[0]))
+    if ex.get("proc_empty"):
+        for (idx, ks), gots in zip(case["sel"], impl[1]):
+            for kind, got in zip(ks, gots):
+                if got[0] != Val([]) or got[2] != []:
+                    out.append("Process(%d).net_connections(%r) of a process without sockets: expected [] and no table read, "
+                               "got %r, tables read %r" % (case["procs"][idx]["pid"], kind, got[0], got[2]))
+    return out
+
+
 def judge(case, coq, impl):
     from pv.core import Verdict, default_judge
     k = case["kind"]
@@ -523,36 +666,40 @@ def judge(case, coq, impl):
         return default_judge(None, case, coq, impl)
     model = coq["model"]
     problems, corr = [], []
+    if k == "raw":
+        problems.extend(_expect_problems(case, impl))
     if k == "state" and coq["wf"]:
         syse, proce = coq["entries"]
-        for kind, got, ent in zip(case["kinds"], impl[0], syse):
+        for kind, got, (ent, slog) in zip(case["kinds"], impl[0], syse):
             if kind not in KINDS:
-                if got != Exc("ValueError"):
-                    problems.append("net_connections(%r): expected ValueError, got %r" % (kind, got))
+                if got[0] != Exc("ValueError") or got[2] != []:
+                    problems.append("net_connections(%r): expected ValueError and no table read, got %r / %r" % (kind, got[0], got[2]))
                 continue
-            msg = _entries_ok(got, ent, False)
+            msg = _call_ok(got, ent, slog, False)
             if msg:
                 problems.append("net_connections(%r): %s" % (kind, msg))
         for (idx, ks), gots, ents in zip(case["sel"], impl[1], proce):
-            for kind, got, ent in zip(ks, gots, ents):
+            for kind, got, (ent, slog) in zip(ks, gots, ents):
+                pid = case["procs"][idx]["pid"]
                 if kind not in KINDS:
-                    if got != Exc("ValueError"):
-                        problems.append("Process(%d).net_connections(%r): expected ValueError, got %r" % (case["procs"][idx]["pid"], kind, got))
+                    if got[0] != Exc("ValueError") or got[2] != []:
+                        problems.append("Process(%d).net_connections(%r): expected ValueError and no table read, got %r / %r"
+                                        % (pid, kind, got[0], got[2]))
                     continue
                 if not case["procs"][idx]["visible"]:
-                    if got != Exc("AccessDenied"):
-                        corr.append("hidden process: %r" % (got,))
+                    if got[0] != Exc("AccessDenied"):
+                        corr.append("hidden process: %r" % (got[0],))
                     continue
-                msg = _entries_ok(got, ent, True)
+                msg = _call_ok(got, ent, slog, True)
                 if msg:
-                    problems.append("Process(%d).net_connections(%r): %s" % (case["procs"][idx]["pid"], kind, msg))
+                    problems.append("Process(%d).net_connections(%r): %s" % (pid, kind, msg))
     if problems:
         return Verdict("violation", "; ".join(problems[:3]))
     if k == "state" and coq["wf"] and finding_key(case, coq) is not None:
         # input class of a known finding: the implementation gave the demanded answer (the model holds the
         # defective one) -- accepted: "the modelled defective answer or the specification's"
         return Verdict("ok", "finding class, demanded answer")
-    # correspondence, component by component (OutOfModel components are skipped)
+    # correspondence, call by call (a call whose model answer is OutOfModel is skipped)
     n_cmp = 0
     for part in (0, 1):
         flat_m = model[part] if part == 0 else [x for per in model[part] for x in (per or [])]
@@ -560,15 +707,15 @@ def judge(case, coq, impl):
         if len(flat_m) != len(flat_i):
             return Verdict("corr", "shape mismatch")
         for m, i in zip(flat_m, flat_i):
-            if m == OOM:
+            if m[0] == OOM or m[1] == OOM:
                 continue
             n_cmp += 1
             if m != i:
                 corr.append("model %r / impl %r" % (m, i))
     if corr:
-        return Verdict("corr", corr[0][:600])
+        return Verdict("corr", corr[0][:700])
     if n_cmp == 0:
-        return Verdict("skip", "all components out of model")
+        return Verdict("skip", "all calls out of model")
     return Verdict("ok")
 
 
@@ -605,6 +752,29 @@ def _conv_rows(per_process):
     return conv
 
 
+class _Host:
+    """Installs the host oracle: inet_ntop(AF_INET6) raising ValueError (psutil issue 623) and supports_ipv6()'s answer."""
+
+    def __init__(self, pslinux, ntop6, supported):
+        self.m, self.ntop6, self.supported = pslinux, ntop6, supported
+
+    def __enter__(self):
+        self.saved = (socket.inet_ntop, self.m.supports_ipv6)
+        real = socket.inet_ntop
+        if not self.ntop6:
+            def ntop(fam, packed):
+                if fam == socket.AF_INET6:
+                    raise ValueError("unknown address family %d" % fam)
+                return real(fam, packed)
+            socket.inet_ntop = ntop
+        supported = self.supported
+        self.m.supports_ipv6 = lambda: supported
+        return self
+
+    def __exit__(self, *a):
+        socket.inet_ntop, self.m.supports_ipv6 = self.saved
+
+
 def impl_run(case, coq, env):
     import psutil
     from psutil import _pslinux
@@ -612,21 +782,24 @@ def impl_run(case, coq, env):
     k = case["kind"]
     saved_le = _pslinux.LITTLE_ENDIAN
     _pslinux.LITTLE_ENDIAN = bool(case["le"])
+    o = case.get("o", [True, True])
     try:
-        if k == "addr":
-            text = unB(coq["printed"]).decode("ascii")
-            fam = AF_INET6 if len(case["ip"]) == 16 else AF_INET
-            return outcome(lambda: _pslinux.NetConnections.decode_address(text, fam), lambda a: _conv_addr(a, fam))
-        if k == "addr_raw":
-            text = bytes.fromhex(case["text"]).decode("ascii")
-            fam = case["family"]
-            return outcome(lambda: _pslinux.NetConnections.decode_address(text, fam), lambda a: _conv_addr(a, fam))
-        return _run_tables(case, coq, env, psutil, fakeproc)
+        with _Host(_pslinux, o[0], o[1]):
+            if k in ("addr", "addr_raw"):
+                if k == "addr":
+                    text = unB(coq["printed"]).decode("ascii")
+                    fam = AF_INET6 if len(case["ip"]) == 16 else AF_INET
+                else:
+                    text = bytes.fromhex(case["text"]).decode("ascii")
+                    fam = case["family"]
+                return outcome(lambda: _pslinux.NetConnections.decode_address(text, fam), lambda a: _conv_addr(a, fam))
+            return _run_tables(case, coq, env, psutil, fakeproc)
     finally:
         _pslinux.LITTLE_ENDIAN = saved_le
 
 
 def _run_tables(case, coq, env, psutil, fakeproc):
+    from psutil import _pslinux
     k = case["kind"]
     root = os.path.join(env["work"], "proc")
     fp = fakeproc.FakeProc(root)
@@ -671,7 +844,9 @@ def _run_tables(case, coq, env, psutil, fakeproc):
                 os.symlink(b"placeholder", os.fsencode(link))
                 fail_link[link] = lk[0]
     pid_order = [str(p["pid"]).encode() for p in procs]
-    real_listdir, real_readlink = os.listdir, os.readlink
+    real_listdir, real_readlink, real_open_text = os.listdir, os.readlink, _pslinux.open_text
+    netdir = os.path.join(root, "net") + os.sep
+    access, sets = [], []
 
     def fake_listdir(path=".", *a):
         if path in deny:
@@ -696,18 +871,47 @@ def _run_tables(case, coq, env, psutil, fakeproc):
         if path in nul_links:
             return nul_links[path]
         return real_readlink(path, *a, **kw)
-    os.listdir, os.readlink = fake_listdir, fake_readlink
+
+    def logging_open_text(fname, *a, **kw):
+        if isinstance(fname, str) and fname.startswith(netdir):
+            access.append(B(fname[len(netdir):]))
+        return real_open_text(fname, *a, **kw)
+
+    class RecordingSet(set):
+        """Stands in for the builtin `set` inside psutil._pslinux: records every add() (the pre-set rows)."""
+
+        def __init__(self, *a):
+            super().__init__(*a)
+            self.added = []
+            sets.append(self)
+
+        def add(self, x):
+            self.added.append(x)
+            super().add(x)
+
+    def call(fn, per_process):
+        del access[:]
+        del sets[:]
+        conv = _conv_rows(per_process)
+        final = outcome(fn, conv)
+        if final.get("t") == "Val":
+            added = [x for st_ in sets for x in st_.added]
+            adds = Val(conv(added))
+        else:
+            adds = final
+        return [final, adds, list(access)]
+
+    os.listdir, os.readlink, _pslinux.open_text = fake_listdir, fake_readlink, logging_open_text
+    _pslinux.set = RecordingSet
     try:
-        sys_res = [outcome(lambda kind=kind: psutil.net_connections(kind), _conv_rows(False)) for kind in case["kinds"]]
+        sys_res = [call(lambda kind=kind: psutil.net_connections(kind), False) for kind in case["kinds"]]
         proc_res = []
         for idx, ks in case["sel"]:
             pid = procs[idx]["pid"]
-            per = []
-            for kind in ks:
-                per.append(outcome(lambda kind=kind: psutil.Process(pid).net_connections(kind), _conv_rows(True)))
-            proc_res.append(per)
+            proc_res.append([call(lambda kind=kind: psutil.Process(pid).net_connections(kind), True) for kind in ks])
     finally:
-        os.listdir, os.readlink = real_listdir, real_readlink
+        os.listdir, os.readlink, _pslinux.open_text = real_listdir, real_readlink, real_open_text
+        del _pslinux.set
     return [sys_res, proc_res]
 
 
@@ -715,16 +919,21 @@ MANIFEST = {
     "text": "Theorems (Coq, closed under the global context) about a Gallina transcription of psutil's Linux net_connections(): (1) over the "
             "tables dumped from the code on every run (tmap, conn_tmap, TCP_STATUSES): for all 11 kinds tmap lists exactly the (file, family, "
             "type) classes the documented kind table admits, agrees with conn_tmap, and every kind outside the 11 raises ValueError whatever the "
-            "kernel state; (2) for every IPv4/IPv6 address and every port the decoder returns the address bytes and port the kernel printed "
-            "(both byte orders), () for port 0; (3) for every kernel state (any number of sockets, any addresses/ports, all 11 TCP states, UNIX "
-            "names with leading/trailing/repeated blanks and @abstract names, any descriptor tables incl. sockets shared between processes, hidden "
-            "processes, absent IPv6 files) and every kind, the system-wide and the per-process answers contain exactly the demanded rows in order, "
-            "with an admissible owner ((None,-1) when no holder is visible, one row per holder for UNIX sockets; TCP/UDP: the first holder in scan "
-            "order) -- no excluded class. The code before the fixes d36edd1 / 9cf9292 is kept as a model variant with the two refuted statements. "
-            "The model is tied to the code by running real psutil through its public API over a fake /proc for generated states, all kinds, and a "
-            "malformed stream.",
+            "kernel state, reading nothing; (2) for every IPv4/IPv6 address and every port the decoder returns the address bytes and port the "
+            "kernel printed (both byte orders), () for port 0, and on a host whose inet_ntop lacks IPv6 ValueError / _Ipv6UnsupportedError as "
+            "supports_ipv6() says; (3) for every kernel state (any number of sockets, any addresses/ports, all 11 TCP states, UNIX names with "
+            "leading/trailing/repeated blanks and @abstract names, any descriptor tables incl. sockets shared between processes, hidden "
+            "processes, absent IPv6 files) and every kind, system-wide and per process: the sequence of set.add() calls is in bijection with the "
+            "demanded rows (none missing, none twice; admissible owner, (None,-1) when no holder is visible, one row per holder for UNIX sockets, "
+            "TCP/UDP: first holder in scan order), the returned list is the duplicate-free set of them (duplicate-freeness holds for EVERY input), "
+            "and exactly the existing tables of the kind are opened, each once -- none when the process holds no socket; (4) without IPv6 support "
+            "the IPv4/UNIX rows are unchanged and only IPv6 sockets with both ports 0 remain; (5) RuntimeError is raised exactly for TCP/UDP lines "
+            "with fewer than 10 fields and UNIX lines with fewer than 7 fields and a blank, blank-free short UNIX lines (issue 766) are skipped "
+            "and change nothing. The code before the fixes d36edd1 / 9cf9292 is kept as a model variant with the two refuted statements. The "
+            "model is tied to the code by running real psutil through its public API over a fake /proc for generated states, all kinds, hosts "
+            "with and without IPv6, and a malformed stream, comparing per call the returned list, the add() multiset and the access log.",
     "note": "Trusted: Coq kernel + vm_compute; hand-written model coq/C11/Model.v (tied by the correspondence run only); kernel formats in "
             "coq/C11/Spec.v; the table translator; harness (fake /proc, os.listdir/os.readlink patches); CPython builtins; glibc inet_ntop "
-            "(addresses compared as packed bytes). Text-mode-only white space (\\r, \\x1c-\\x1f, Unicode blanks) is outside the model. "
+            "(addresses compared as packed bytes); the harness hooks (recording set, open_text and inet_ntop wrappers). Text-mode-only white space (\\r, \\x1c-\\x1f, Unicode blanks) is outside the model. "
             "Proof covers the model, sampling covers model-vs-code.",
 }
